@@ -505,5 +505,13 @@ def run_replay(mod, path):
         print('VIOLATION property=%s replay=%s' % (doc['property'], path))
         return 1
     other = [v.signature for v in out.violations]
+    unknown = [o for o in other if known_entry(doc['property'], o) is None]
+    for o in other:
+        ke = known_entry(doc['property'], o)
+        if ke is not None:
+            print('KNOWN-FINDING: property=%s %s [signature %s]' % (doc['property'],
+                                                                    ke['what_fails'], o))
     print('replay clean for signature %s (other violations: %s)' % (sig, other))
-    return 1 if other else 0
+    if unknown:
+        print('VIOLATION property=%s replay=%s' % (doc['property'], path))
+    return 1 if unknown else 0
